@@ -165,7 +165,7 @@ func c04Setup() (*c04Infra, error) {
 		}
 
 		inf.jwks = httptest.NewServer(http.HandlerFunc(func(rw http.ResponseWriter, req *http.Request) {
-			switch req.URL.Path {
+			switch c04Head(req.URL.Path) {
 			case "/jwks/ok":
 				rw.Header().Set("Content-Type", "application/json")
 				rw.Write(rawSet) //nolint:errcheck
@@ -221,7 +221,7 @@ func c04Setup() (*c04Infra, error) {
 		}
 
 		inf.intro = httptest.NewServer(http.HandlerFunc(func(rw http.ResponseWriter, req *http.Request) {
-			switch req.URL.Path {
+			switch c04Head(req.URL.Path) {
 			case "/introspect/ok":
 			case "/introspect/badjson":
 				rw.Header().Set("Content-Type", "application/json")
@@ -253,7 +253,7 @@ func c04Setup() (*c04Infra, error) {
 		}))
 
 		inf.ident = httptest.NewServer(http.HandlerFunc(func(rw http.ResponseWriter, req *http.Request) {
-			switch req.URL.Path {
+			switch c04Head(req.URL.Path) {
 			case "/identity/ok":
 			case "/identity/badjson":
 				rw.Header().Set("Content-Type", "application/json")
@@ -283,8 +283,9 @@ func c04Setup() (*c04Infra, error) {
 
 		// OAuth2 server metadata: /meta/<variant>/<kind>/<endpoint variant>
 		inf.meta = httptest.NewServer(http.HandlerFunc(func(rw http.ResponseWriter, req *http.Request) {
-			parts := strings.Split(strings.TrimPrefix(req.URL.Path, "/meta/"), "/")
-			if len(parts) != 3 {
+			// whatever follows the third segment is the rendered part of a templated URL
+			parts := strings.SplitN(strings.TrimPrefix(req.URL.Path, "/meta/"), "/", 4) //nolint:mnd
+			if len(parts) < 3 { //nolint:mnd
 				rw.WriteHeader(http.StatusNotFound)
 
 				return
@@ -350,6 +351,46 @@ func c04Setup() (*c04Infra, error) {
 	})
 
 	return c04Inf, c04Error
+}
+
+// c04Head yields the first two segments of a path ("/identity/ok/s/abc" -> "/identity/ok"): the endpoints answer under
+// every path below their own, so that the URL configured for them can be a template over the credential
+func c04Head(path string) string {
+	parts := strings.SplitN(path, "/", 4) //nolint:mnd
+	if len(parts) < 3 {                   //nolint:mnd
+		return path
+	}
+
+	return "/" + parts[1] + "/" + parts[2]
+}
+
+// c04Templated completes the configuration of an endpoint whose URL / headers are templates over the credential
+// (generic: {{ .AuthenticationData }}) resp. over the issuer named by the token (jwt, oauth2_introspection:
+// {{ .TokenIssuer }}). "utpl": where the value stands in the URL, "htpl": a header rendered from it.
+func c04Templated(m map[string]any, ep map[string]any, value string) map[string]any {
+	base, _ := ep["url"].(string)
+
+	switch getStr(m, "utpl") {
+	case "":
+	case "path":
+		ep["url"] = base + "/s/{{ " + value + " }}"
+	case "mid":
+		ep["url"] = base + "/s/{{ " + value + " }}/info"
+	case "query":
+		ep["url"] = base + "?s={{ " + value + " }}"
+	case "enc":
+		ep["url"] = base + "/s/{{ urlenc " + value + " }}"
+	case "fn":
+		ep["url"] = base + `/s/{{ atIndex 1 (splitList "." ` + value + `) }}`
+	default:
+		ep["url"] = base + "/unknown-utpl"
+	}
+
+	if getBool(m, "htpl") {
+		ep["headers"] = map[string]any{"X-Credential-Ref": "{{ " + value + " }}"}
+	}
+
+	return ep
 }
 
 // c04RawClaims adds the members listed under "rawclaims" ([[name, JSON text], ...]) to a JSON object, each value
@@ -621,12 +662,13 @@ func (inf *c04Infra) mechanism(m map[string]any) (config.Mechanism, error) {
 				ep = "ok"
 			}
 
-			conf["metadata_endpoint"] = map[string]any{
+			conf["metadata_endpoint"] = c04Templated(m, map[string]any{
 				"url":                                    inf.meta.URL + "/meta/" + meta + "/jwks/" + ep,
 				"disable_issuer_identifier_verification": true,
-			}
+			}, ".TokenIssuer")
 		} else {
-			conf["jwks_endpoint"] = map[string]any{"url": endpoint(inf.jwks.URL, "/jwks/")}
+			conf["jwks_endpoint"] = c04Templated(m, map[string]any{"url": endpoint(inf.jwks.URL, "/jwks/")},
+				".TokenIssuer")
 		}
 
 		assertions := map[string]any{"issuers": c04Strs(m, "iss")}
@@ -651,12 +693,13 @@ func (inf *c04Infra) mechanism(m map[string]any) (config.Mechanism, error) {
 				ep = "ok"
 			}
 
-			conf["metadata_endpoint"] = map[string]any{
+			conf["metadata_endpoint"] = c04Templated(m, map[string]any{
 				"url":                                    inf.meta.URL + "/meta/" + meta + "/introspect/" + ep,
 				"disable_issuer_identifier_verification": true,
-			}
+			}, ".TokenIssuer")
 		} else {
-			conf["introspection_endpoint"] = map[string]any{"url": endpoint(inf.intro.URL, "/introspect/")}
+			conf["introspection_endpoint"] = c04Templated(m,
+				map[string]any{"url": endpoint(inf.intro.URL, "/introspect/")}, ".TokenIssuer")
 		}
 
 		assertions := map[string]any{"issuers": c04Strs(m, "iss")}
@@ -671,7 +714,8 @@ func (inf *c04Infra) mechanism(m map[string]any) (config.Mechanism, error) {
 			conf["token_source"] = src
 		}
 	case "generic":
-		conf["identity_info_endpoint"] = map[string]any{"url": endpoint(inf.ident.URL, "/identity/"), "method": "POST"}
+		conf["identity_info_endpoint"] = c04Templated(m,
+			map[string]any{"url": endpoint(inf.ident.URL, "/identity/"), "method": "POST"}, ".AuthenticationData")
 		conf["payload"] = "{{ .AuthenticationData }}"
 		if getBool(m, "tpl") {
 			// api keys of the form <id>.<secret>: only the secret is sent to the identity endpoint
